@@ -14,8 +14,8 @@ LEAN_MODULES = ['Sonic.Props.C19']
 REQUIRED_THEOREMS = ["Sonic.Props.C19." + n for n in ["C19_model_eq_spec_partial", "C19_counterexample", "C19_keys_kept", "C19_undeclared_ignored",
                                                          "C19_omitted_unchanged", "C19_provided_replaced", "C19_replaced_whole", "C19_idempotent", "C19_repeat",
                                                          "C19_handler_refines", "C19_handler_refines_text", "C19_text_eq_spec_partial"]]
-CONFIGS = [("avx2", "prod"), ("sse", "prod"), ("avx2", "san"), ("sse", "san")]
-CONFIGS_THOROUGH = CONFIGS + [("dyn", "prod")]
+CONFIGS = [("avx2", "prod"), ("sse", "prod"), ("avx2", "san"), ("sse", "san"), ("dyn", "prod")]
+CONFIGS_THOROUGH = CONFIGS + [("dyn", "san")]
 RULE = ("pairs (existing document, valid text) without duplicate keys: the text is derived from the existing value (declared keys kept / "
         "omitted / re-kinded, undeclared keys inserted before, between and after, members reordered, escaped spellings of declared keys) or "
         "independent, covering every combination of kinds at the root and at matched keys, nesting to depth 5, empty containers, arrays of "
@@ -49,7 +49,7 @@ def generate(rng, tier):
             t = MG.derive(rng, cur) if rng.random() < 0.8 else MG.gen(rng)
             texts.append(t)
         alloc = ["pool", "simple", "track"][k % 3]
-        line = f"schema {alloc} {G.hx(MG.text(rng, e))} " + " ".join(G.hx(MG.text(rng, t)) for t in texts)
+        line = f"schema {alloc} {G.hx(MG.doc(rng, e))} " + " ".join(G.hx(MG.doc(rng, t)) for t in texts)
         cases.append({"lines": [line], "cls": f"x{n}/{alloc}", "ntexts": n, "empty_obj": any(MG.has_empty_obj(t) for t in texts),
                       "nontrivial": isinstance(e, tuple) and e[0] == "o" and bool(e[1])})
     # existing documents whose object members were emptied through the mutation API first (value `{}`, capacity / map retained):
